@@ -548,6 +548,39 @@ def overlap_profile(seed):
 
 
 PROFILES["term"] = term_profile
+
+
+_SIGNALS_BASE = PROFILES["signals"]
+
+
+def signals_profile(seed):
+    """Random signal scenarios, plus (every 4th seed) a template: the graceful termination of one worker is in flight
+    (it ignores the stop signal), and inside its grace period requests address the watcher as a whole or that very
+    worker: "all workers" includes the one that is being stopped, which is still running."""
+    import random
+    if seed % 4 != 0:
+        return scenario.gen_scenario(seed, _SIGNALS_BASE)
+    rng = random.Random(seed)
+    G = rng.choice([0.3, 0.4, 0.5])
+    ws = [{"name": "w1", "np": rng.choice([2, 3]), "G": G, "W": 0.0}]
+    if rng.random() < 0.5:
+        ws.append({"name": "w2", "np": 1, "G": 0.1, "W": 0.0})
+    s = [{"op": "boot"}, {"op": "tick", "n": rng.randint(2, 6)}]
+    for _ in range(rng.randint(1, 2)):
+        s.append({"op": "req", "cmd": "kill", "props": {"name": "w1", "waiting": False, "pidsel": rng.randint(0, 2)}})
+        for _ in range(rng.randint(1, 3)):
+            s.append({"op": "tick", "n": 1})
+            props = {"name": "w1", "signum": rng.choice([scenario.SIGHUP, scenario.SIGUSR1, "usr2", "int", 0])}
+            if rng.random() < 0.35:
+                props["pidsel"] = rng.randint(0, 2)
+            s.append({"op": "req", "cmd": "signal", "props": props})
+        s.append({"op": "tick", "n": rng.randint(4, 9)})
+    s.append({"op": "end", "xprobe": True, "passes": 2})
+    return {"seed": seed, "watchers": ws, "check_delay": rng.choice([1.0, 2.0]), "warmup_delay": 0.0,
+            "stubborn": ["w1"], "obeys": [False], "instant_death": False, "script": s}
+
+
+PROFILES["signals"] = signals_profile
 PROFILES["overlap"] = overlap_profile
 
 
